@@ -14,6 +14,7 @@ import PyTough.Proofs.ListingValues
 import PyTough.Proofs.ListingRowFormat
 import PyTough.Proofs.ListingFile
 import PyTough.Proofs.ListingWhole
+import PyTough.Proofs.ListingWholeAut
 import PyTough.Gen.ListingBind
 
 namespace Props.C05
@@ -413,5 +414,111 @@ example : exRd.tables.lookup "element" = some exT2 ∧ exRd.pos.rest = exHdr ++ 
   ⟨rfl, rfl, by decide, rfl, by decide⟩
 example : Proofs.Whole.rowOfLineT exT2.rows exT2.keyPos exT2.cols.length exT2.numpos exSegs[1].1
     = some (1, [.fin false 94153 2, .fin false 19209 (-108), .fin true 66842 (-4)]) := by decide
+
+
+/-! ### a whole printed table, AUTOUGH2: the loop runs to the terminator line
+
+  The lines from behind the table's keyword line (`EEEEE`, `CCCCC`, `GGGGG` in columns 1..5): the rest of the title
+  block `A` (non-blank lines), a blank line `b`, the column header block `B` (non-blank lines), blank lines
+  `b2 :: Bl`, the printed data lines `D`, the terminator `term` (the keyword again), then `tail`
+  (`Proofs.Whole.autRegion` is this concatenation). -/
+
+open Proofs.Whole in
+/-- well-formedness of an AUTOUGH2 table region for a table `t` that has been set up: decidable on concrete lines -/
+def TableRegionA (tn : String) (t : Table) (A : List Str) (b : Str) (B : List Str) (b2 : Str) (Bl D : List Str) (term : Str) : Prop :=
+  (∀ l ∈ A, isBlank l = false) ∧ isBlank b = true ∧ (∀ l ∈ B, isBlank l = false) ∧ isBlank b2 = true ∧
+  (∀ l ∈ Bl, isBlank l = true) ∧ isBlank ((D ++ [term]).headD []) = false ∧
+  (∀ d ∈ D, slice d 1 6 ≠ keyword5 tn) ∧ slice term 1 6 = keyword5 tn ∧
+  (∀ d ∈ D, (rowOfLineA t.cols.length (t.numpos.headD none) d).isSome = true) ∧
+  D.length ≤ t.rows.size ∧ t.data.size = t.rows.size
+
+instance (tn : String) (t : Table) (A : List Str) (b : Str) (B : List Str) (b2 : Str) (Bl D : List Str) (term : Str) :
+    Decidable (TableRegionA tn t A b B b2 Bl D term) := by
+  unfold TableRegionA; infer_instance
+
+open Proofs.Whole in
+/-- **One row per printed data line, in order, up to the terminator (AUTOUGH2).**  `read_table_AUTOUGH2`, run with the
+    file at the first line of a well-formed region, returns normally; the loop stops at the terminator line and one
+    more line is read behind it (`tail.drop 1` is left, line count included); row `j` of the table holds exactly the
+    values `read_table_line_AUTOUGH2` returns for the `j`-th printed data line, one per column; rows beyond the
+    printed lines keep what they held; row names, columns and layout of the table are unchanged; no other table and
+    no other attribute of the reader changes. -/
+theorem table_read_AUTOUGH2 (tn : String) (t : Table) (s : Rd)
+    (A : List Str) (b : Str) (B : List Str) (b2 : Str) (Bl D : List Str) (term : Str) (tail : List Str)
+    (ht : s.tables.lookup tn = some t)
+    (hrest : s.pos.rest = autRegion A b B b2 Bl D term tail)
+    (hwf : TableRegionA tn t A b B b2 Bl D term) :
+    ∃ s' t', (readTableAUTOUGH2 tn).run s = .ok ((), s') ∧
+      s'.pos = ⟨s.pos.no + (A.length + 1 + B.length + 1 + Bl.length + D.length + 1 + min 1 tail.length), tail.drop 1⟩ ∧
+      s'.tables.lookup tn = some t' ∧ t' = { t with data := t'.data } ∧ t'.data.size = t.data.size ∧
+      (∀ (j : Nat) d, D[j]? = some d →
+          ∃ vals, readTableLineAUTOUGH2 d (t.numpos.headD none) = .ok vals ∧ vals.length = t.cols.length ∧
+            t'.data[j]? = some vals.toArray) ∧
+      (∀ i, D.length ≤ i → t'.data[i]? = t.data[i]?) ∧
+      (∀ m, m ≠ tn → s'.tables.lookup m = s.tables.lookup m) ∧
+      s'.tables.map (·.1) = s.tables.map (·.1) ∧
+      s' = { s with pos := s'.pos, tables := s'.tables } := by
+  obtain ⟨hA, hb, hB, hb2, hBl, hfirst, hD, hterm, hok, hsz, hdata⟩ := hwf
+  let f : Str → Option (List FVal) := rowOfLineA t.cols.length (t.numpos.headD none)
+  have hmap := map_eq_map_some_filterMap f D hok
+  have hlen : (D.filterMap f).length = D.length := by
+    have := congrArg List.length hmap; simpa using this.symm
+  have hrun := readTableAUTOUGH2_run tn t s A b B b2 Bl D term tail ht hrest hA hb hB hb2 hBl hfirst hD hterm hok hsz
+  refine ⟨_, { t with data := applyRows t.data (enumRows 0 (D.filterMap f)) }, hrun, rfl, ?_, rfl, ?_, ?_, ?_, ?_, ?_, rfl⟩
+  · exact putT_lookup_self tn _ _ (by simp [ht])
+  · exact applyRows_size _ _
+  · intro j d hj
+    obtain ⟨vals, hv, hl, hf⟩ := rowOfLineA_some (hok d (List.mem_of_getElem? hj))
+    refine ⟨vals, hv, hl, ?_⟩
+    have hget : (D.filterMap f)[j]? = some vals := by
+      have := congrArg (fun l => l[j]?) hmap
+      simp only [List.getElem?_map, hj, Option.map_some] at this
+      have hf' : f d = some vals := hf
+      rw [hf'] at this
+      cases h : (D.filterMap f)[j]? with
+      | none => rw [h] at this; cases this
+      | some v => rw [h] at this; simp only [Option.map_some, Option.some.injEq] at this; rw [this]
+    have := applyRows_enum t.data 0 (D.filterMap f) j vals hget (by rw [hlen, hdata]; omega)
+    simpa using this
+  · intro i hi
+    exact applyRows_enum_other t.data 0 (D.filterMap f) i (Or.inr (by rw [hlen]; omega))
+  · intro m hm
+    exact putT_lookup_other tn m _ _ hm
+  · exact putT_names tn _ _
+
+open Proofs.Whole in
+/-- **Skipping a table leaves the file where reading it would (AUTOUGH2).**  On the same region, when no line of the
+    header block carries the table's keyword in columns 1..5, `skip_table_AUTOUGH2` and `read_table_AUTOUGH2` end at
+    the same file position, and the skip changes nothing else. -/
+theorem skip_table_lands_where_read_lands_AUTOUGH2 (tn : String) (t : Table) (s : Rd)
+    (A : List Str) (b : Str) (B : List Str) (b2 : Str) (Bl D : List Str) (term : Str) (tail : List Str)
+    (ht : s.tables.lookup tn = some t)
+    (hrest : s.pos.rest = autRegion A b B b2 Bl D term tail)
+    (hwf : TableRegionA tn t A b B b2 Bl D term)
+    (hhead : ∀ l ∈ b :: (B ++ b2 :: Bl), slice l 1 6 ≠ keyword5 tn) :
+    ∃ s₁ s₂, (readTableAUTOUGH2 tn).run s = .ok ((), s₁) ∧ (skipTableAUTOUGH2 tn).run s = .ok ((), s₂) ∧
+      s₂.pos = s₁.pos ∧ s₂ = { s with pos := s₂.pos } := by
+  obtain ⟨s₁, _, hrun, hpos, _⟩ := table_read_AUTOUGH2 tn t s A b B b2 Bl D term tail ht hrest hwf
+  refine ⟨s₁, _, hrun, skipTableAUTOUGH2_run tn s A b B b2 Bl D term tail hrest hwf.1 hwf.2.1 hhead hwf.2.2.2.2.2.2.1 hwf.2.2.2.2.2.2.2.1, ?_, rfl⟩
+  rw [hpos]
+
+-- the hypotheses are satisfiable: an AUTOUGH2 element table of two rows between its two `EEEEE` lines
+private def exTA : Table :=
+  { mkTable [['P'], ['T'], ['X']] #[["AA  1".toList], ["AA  2".toList]] 1 false with keyPos := [4], numpos := [some 24] }
+private def exDA : List Str :=
+  ["    AA  1         1      0.29971E+08      0.39992E+03 -0.10000E+01\r\n".toList,
+   "    AA  2         2      0.29000E+08      0.10000E+03  0.00000E+00\r\n".toList]
+private def exRdA : Rd :=
+  let ls := Proofs.Whole.autRegion [" a title line\n".toList] "\n".toList [" ELEMENT INDEX P T X\n".toList, " (PA) (DEG-C)\n".toList]
+    "\n".toList ["  \n".toList] exDA " EEEEEEEEEEEEEEE\n".toList ["\n".toList, " next\n".toList]
+  { all := ls, isOutputData := false, pos := ⟨7, ls⟩, tables := [("element", exTA)] }
+example : exRdA.tables.lookup "element" = some exTA ∧
+    exRdA.pos.rest = Proofs.Whole.autRegion [" a title line\n".toList] "\n".toList [" ELEMENT INDEX P T X\n".toList, " (PA) (DEG-C)\n".toList]
+      "\n".toList ["  \n".toList] exDA " EEEEEEEEEEEEEEE\n".toList ["\n".toList, " next\n".toList] ∧
+    TableRegionA "element" exTA [" a title line\n".toList] "\n".toList [" ELEMENT INDEX P T X\n".toList, " (PA) (DEG-C)\n".toList]
+      "\n".toList ["  \n".toList] exDA " EEEEEEEEEEEEEEE\n".toList ∧
+    (∀ l ∈ "\n".toList :: ([" ELEMENT INDEX P T X\n".toList, " (PA) (DEG-C)\n".toList] ++ "\n".toList :: ["  \n".toList]),
+      slice l 1 6 ≠ keyword5 "element") :=
+  ⟨rfl, rfl, by decide, by decide⟩
 
 end Props.C05
